@@ -157,10 +157,10 @@ type network struct {
 	v     *view
 	sent  []*sentLine
 	// names ever used, for "nothing extra is tracked"
-	allNicks map[string]bool
-	allChans map[string]bool
-	listModes bool
-	who352    map[string]bool // nick -> a 352 for it has been sent
+	allNicks       map[string]bool
+	allChans       map[string]bool
+	listModes      bool
+	who352         map[string]bool // nick -> a 352 for it has been sent
 	pendingReplies []func()
 }
 
@@ -707,6 +707,28 @@ func trackRun(e *Env) {
 	c = NewClient(ClientOpts{Nick: "me", Ident: "sim", Name: "Sim User", Flood: flood, Track: true})
 	st := c.StateTracker()
 
+	ended := false
+	endHow, endAt := 0, -1
+	startEnd := func() {
+		if ended {
+			return
+		}
+		ended = true
+		e.S.Count("fault.connection-ended-mid-session")
+		e.S.Spawn("ender", func() {
+			for i := e.S.Choose(30); i > 0; i-- {
+				simrt.Sleep(0)
+			}
+			switch endHow {
+			case 0:
+				c.Close()
+			case 1:
+				net.l.CloseByServer()
+			default:
+				net.l.Reset()
+			}
+		})
+	}
 	// ---- C05 handlers ----
 	if e.Prop == "C05" {
 		check := func(kind string) client.HandlerFunc {
@@ -727,21 +749,59 @@ func trackRun(e *Env) {
 						ns = append(ns, x)
 					}
 				}
+				if kind == "fg" && endAt >= 0 && i >= endAt {
+					startEnd()
+				}
 				if kind == "fg" {
 					// a sample of the rest of the universe too
 					ns = append(ns, names[g.S.Choose(len(names))], "me")
 					cs = append(cs, fmt.Sprintf("#c%d", g.S.Choose(nChans)))
 					e.Check()
-					if d := compareView(st, sl.view, ns, cs); d != "" {
-						e.Violation("fg-handler-view", "inside a foreground handler for line %d (%s) the tracker is not exactly the state after that line: %s", i, sl.text, d)
+					// once the connection is ending, undispatched lines may be
+					// discarded, so the cumulative model state no longer applies
+					if !ended {
+						if d := compareView(st, sl.view, ns, cs); d != "" && !ended {
+							e.Violation("fg-handler-view", "inside a foreground handler for line %d (%s) the tracker is not exactly the state after that line: %s", i, sl.text, d)
+						}
+					}
+					// always: while this foreground handler runs nothing else may be
+					// applied to the tracker (no later line intrudes), also while the
+					// connection is being torn down
+					snap := func() string {
+						var b strings.Builder
+						for _, cn := range cs {
+							b.WriteString(encChan(st.GetChannel(cn), true) + ";")
+						}
+						for _, nn := range ns {
+							b.WriteString(encNickNoModes(st.GetNick(nn)) + ";")
+						}
+						return b.String()
+					}
+					before := snap()
+					if ended || g.S.Choose(5) == 0 {
+						// park on the fake clock: everything else runs until it blocks
+						// while this handler is still "running"
+						simrt.Sleep(10 * time.Millisecond)
+					} else {
+						for k := g.S.Choose(4) * 10; k > 0; k-- {
+							simrt.Sleep(0)
+						}
+					}
+					if after := snap(); after != before {
+						e.Violation("fg-handler-intruded", "the tracker changed while a foreground handler for line %d (%s) was running: a later line was applied\n before: %s\n after:  %s", i, sl.text, before, after)
 					}
 					return
 				}
 				// background: may run late, never early.  The line's own effect must
 				// be visible unless a later line (already sent) touched the same names.
-				sentNow := len(net.sent)
+				if ended {
+					return // lines may be discarded while the connection ends: the cumulative state no longer applies
+				}
 				d := compareView(st, sl.view, ns, cs)
-				if d == "" {
+				// sampled AFTER the queries (they are scheduling points): a line sent
+				// while they ran may already have been applied
+				sentNow := len(net.sent)
+				if d == "" || ended {
 					e.Check()
 					return
 				}
@@ -791,7 +851,7 @@ func trackRun(e *Env) {
 		for round := 0; round < 2000; round++ {
 			n0 := clientLines
 			simrt.Settle(15 * time.Second)
-			if net.l.Pending() == 0 && clientLines == n0 {
+			if ended || net.l.ClientEnd || (net.l.Pending() == 0 && clientLines == n0) {
 				return
 			}
 		}
@@ -834,7 +894,15 @@ func trackRun(e *Env) {
 		return invariants(where)
 	}
 	conformant := true
-	for ev := 0; ev < nEvents && !e.S.Failed(); ev++ {
+	if e.Prop == "C05" && g.Pct(40) {
+		// the connection ends while lines are in flight and a foreground handler
+		// is running: whatever is still dispatched must obey the same ordering
+		// towards the tracker.  The end is started from inside the handler of a
+		// chosen line (by another task: Close from a handler is outside the claim).
+		endHow = g.Intn(3)
+		endAt = g.Range(2, 3*nEvents+2)
+	}
+	for ev := 0; ev < nEvents && !e.S.Failed() && !ended; ev++ {
 		// answer a pending query now and then
 		if len(queries) > 0 && g.S.Choose(3) == 0 {
 			q := queries[0]
@@ -941,6 +1009,11 @@ func trackRun(e *Env) {
 		if g.S.Choose(4) == 0 {
 			simrt.Sleep(time.Duration(g.S.Choose(3)) * time.Millisecond)
 		}
+	}
+	if ended {
+		simrt.Settle(2 * time.Minute)
+		c.Close()
+		return
 	}
 	// final: answer everything, settle, compare
 	for round := 0; round < 6; round++ {
